@@ -20,7 +20,8 @@ RULE = ("matrices: exhaustive 0/1 matrices (quick <= 3x4 and 4x3, thorough <= 3x
         "code show: all 3x5 matrices, every multiset of 4 rows over 5 columns in one arrangement, 'deep' planted "
         "matrices (chains of overlapping intervals, nested and straddling intervals, 0-2 flips) with 5-7 columns "
         "against the reference and with 8-12 columns (planted order certified by c1p_check => True is the proved "
-        "verdict; every returned order checked), tall near-miss matrices (7-10 rows, 5-9 columns, 1-3 flips), the same "
+        "verdict; every returned order checked), 'wrap' matrices (7-10 rows, 6-12 columns: chain of overlapping intervals "
+        "plus nested intervals sharing an endpoint, 0-1 flips: depth >= 2 single-child wrappers), tall near-miss matrices (7-10 rows, 5-9 columns, 1-3 flips), the same "
         "matrices wrapped as instances for CI / DE (rows = ballots) and VI (rows = alternatives); large planted up to "
         "40x40 (positive: planted order "
         "certified by c1p_check; negative: an embedded Tucker submatrix certified by c1p_core + c1p_core_refuted_sound); instances: every "
@@ -29,7 +30,10 @@ RULE = ("matrices: exhaustive 0/1 matrices (quick <= 3x4 and 4x3, thorough <= 3x
         "7) from planted CI / CEI / VI / VEI / partition / 2-partition / forbidden-cycle / uniform generators with "
         "flips, repeated ballots, empty and full approval sets, unapproved alternatives, arbitrary labels in arbitrary "
         "insertion order, 1 or 2 categories; large planted instances 8 <= m, n <= 40 (witness check + planted "
-        "certificate; partition references run at every size); reorder_sets called directly on the duplicate-free "
+        "certificate; partition references run at every size); HISTORIES: one CategoricalInstance object, 3-6 calls of "
+        "interleaved recognisers with in-place edits of instance.preferences between the calls (ballot replaced, ballots "
+        "permuted, alternatives relabelled, cycle / interval profile written in; the number of ballots never changes), "
+        "each call judged on the current ballots; alternative ids include 0 and 10**18, 2**63, 2**64+1; reorder_sets called directly on the duplicate-free "
         "families of column sets of such matrices (all families from the exhaustive shapes, ~10 000 structured families (thorough 120 000) "
         "with 3-14 sets, 3 000 large ones up to 40 sets; list and dict-keys input): contract = sets_check / sets_decide; "
         "instance_to_ci_matrix compared through "
@@ -222,6 +226,40 @@ def _deep_matrix(rng, nr, nc, flips=None):
             r[hidden[p_]] = 1
     if flips is None:
         flips = rng.choice([0, 0, 1, 1, 2])
+    for _ in range(flips):
+        rows[rng.randrange(nr)][rng.randrange(nc)] ^= 1
+    return rows, (hidden if flips == 0 else None)
+
+
+def _wrap_matrix(rng, nr, nc, flips=0):
+    """a chain of overlapping intervals (Q-node) with nested intervals SHARING AN ENDPOINT with a chain member
+    (single-child wrappers that the grandparent has to merge, reversals), many rows; measured on a seeded change
+    of PQ.flatten: ~1e-3 hits per matrix with 9 rows, against ~4e-5 for uniform matrices"""
+    hidden = list(range(nc))
+    rng.shuffle(hidden)
+    s_ = rng.randrange(0, max(1, nc // 3))
+    e = min(nc - 1, s_ + rng.randint(2, 4))
+    ivs = [(s_, e)]
+    while e < nc - 1 and len(ivs) < max(2, nr // 2) and rng.random() < 0.8:
+        s2 = rng.randint(s_ + 1, e)
+        e2 = min(nc - 1, e + rng.randint(1, 3))
+        ivs.append((s2, e2))
+        s_, e = s2, e2
+    while len(ivs) < nr:
+        ps, pe = rng.choice(ivs)
+        k = rng.random()
+        if pe - ps >= 1 and k < 0.4:
+            ivs.append((ps, rng.randint(ps, pe - 1)))
+        elif pe - ps >= 1 and k < 0.8:
+            ivs.append((rng.randint(ps + 1, pe), pe))
+        else:
+            a = rng.randint(0, nc - 1)
+            ivs.append((a, rng.randint(a, nc - 1)))
+    rng.shuffle(ivs)
+    rows = [[0] * nc for _ in ivs]
+    for r, (a, b) in zip(rows, ivs):
+        for p_ in range(a, b + 1):
+            r[hidden[p_]] = 1
     for _ in range(flips):
         rows[rng.randrange(nr)][rng.randrange(nc)] ^= 1
     return rows, (hidden if flips == 0 else None)
@@ -449,7 +487,7 @@ def generate(tier, seed):
         else:
             rows, hidden = _deep_matrix(rng, nr, nc)
             out.append(_mcase(rows, nc, gen="deep5-7", **({"planted": hidden} if hidden is not None else {})))
-    nwide = 18000 if quick else 200000
+    nwide = 12000 if quick else 200000
     for i in range(nwide):                                       # 8-12 columns: witness check + planted certificate
         nr, nc = rng.randint(3, 8), rng.randint(8, 12)
         if i % 4 == 3:
@@ -457,6 +495,12 @@ def generate(tier, seed):
         else:
             rows, hidden = _deep_matrix(rng, nr, nc, flips=rng.choice([0, 0, 0, 1, 2]))
             out.append(_mcase(rows, nc, gen="deep8-12", big=1, **({"planted": hidden} if hidden is not None else {})))
+    nwrap_m = 12000 if quick else 150000
+    for i in range(nwrap_m):        # depth >= 2 wrappers: planted certificate / reference + check of every order
+        nr, nc = rng.randint(7, 10), rng.randint(6, 12)
+        rows, hidden = _wrap_matrix(rng, nr, nc, flips=i % 2)
+        tags = {"big": 1} if (nc > 7 or i % 4 > 1) else {}
+        out.append(_mcase(rows, nc, gen="wrap", **tags, **({"planted": hidden} if hidden is not None else {})))
     ntall = 15000 if quick else 150000
     for i in range(ntall):          # many rows, near misses: a false True always carries an invalid column order
         nr, nc = rng.randint(7, 10), rng.randint(5, 9)
@@ -492,8 +536,8 @@ def generate(tier, seed):
             nr, nc = rng.randint(3, 8), rng.randint(8, 14)
             rows, hidden = _deep_matrix(rng, nr, nc, flips=rng.choice([0, 0, 0, 1, 2]))
         elif kind == 4:
-            nr, nc = rng.randint(7, 10), rng.randint(5, 9)
-            rows, hidden = _deep_matrix(rng, nr, nc, flips=rng.choice([1, 2, 3]))
+            nr, nc = rng.randint(7, 10), rng.randint(6, 12)
+            rows, hidden = _wrap_matrix(rng, nr, nc, flips=rng.choice([0, 0, 1]))
         else:
             nr, nc = rng.randint(3, 8), rng.randint(4, 9)
             rows, hidden = _uniform_matrix(rng, nr, nc), None
@@ -542,6 +586,9 @@ def generate(tier, seed):
         nr, nc = rng.randint(3, 7), rng.randint(5, 12)
         if i % 5 == 4:
             rows, hidden = _uniform_matrix(rng, nr, nc), None
+        elif i % 5 in (2, 3):
+            nr = rng.randint(7, 9)
+            rows, hidden = _wrap_matrix(rng, nr, nc, flips=rng.choice([0, 0, 1]))
         else:
             rows, hidden = _deep_matrix(rng, nr, nc, flips=rng.choice([0, 0, 1, 2]))
         labels = _labels(rng, nc)
